@@ -305,6 +305,18 @@ func c01Event(c obj, seed int64) obj {
 	p, msg := guarded(func() {
 		orig := buildStep(c["orig"].(map[string]any), rng)
 		penv := envOf(c["penv"], rng)
+		if seed%2 == 1 {
+			// as SignSteps does, the SAME env map has just served another step - one that shadows every pipeline
+			// variable; what is signed for `orig` must not depend on that
+			denv := map[string]string{}
+			for k := range penv {
+				denv[k] = "decoy"
+			}
+			decoy := &signature.CommandStepWithInvariants{CommandStep: pipeline.CommandStep{Command: "decoy", Env: denv}, RepositoryURL: "https://example.com/decoy.git"}
+			if _, err := signature.Sign(ctx, signer.sign, decoy, signature.WithEnv(penv)); err != nil {
+				panic("Sign of the decoy step: " + err.Error())
+			}
+		}
 		plog := &payloadLogger{}
 		sig, err := signature.Sign(ctx, signer.sign, orig, signature.WithEnv(penv), signature.WithLogger(plog), signature.WithDebugSigning(true))
 		if err != nil {
@@ -370,7 +382,11 @@ func runC01(args []string) {
 	samples := []any{}
 	acc := 0
 	readNDJSON(fl.str("cases", ""), func(n int, c obj) {
-		ev := c01Event(c, int64(n)+int64(fl.int("seed", 1))*100003)
+		seed := int64(n) + int64(fl.int("seed", 1))*100003
+		if r, ok := c["rot"].(json.Number); ok {
+			seed, _ = r.Int64() // every choice of the driver is a function of the case: a replay reproduces it
+		}
+		ev := c01Event(c, seed)
 		if ev["accepted"] == true {
 			acc++
 		}
@@ -443,6 +459,27 @@ func payloadHashes(s map[string]any, R int, rng *mrand.Rand) (signH []string, ve
 		}
 		signH = append(signH, sha(lg.payloads[0]))
 		sample = lg.payloads[0]
+		if r == 2 {
+			// history on the OBJECT: the same step value is signed first under another pipeline env (and verified),
+			// then under this one - the payload depends on the content and this env only
+			other := map[string]string{"ZZ_OTHER": "o", "A": "other-a", "B": "other-b"}
+			st3 := buildStep(s["c"].(map[string]any), rng)
+			osig, err := signature.Sign(ctx, kp.sign, st3, signature.WithEnv(other))
+			if err != nil {
+				panic("Sign under another env: " + err.Error())
+			}
+			if err := signature.Verify(ctx, osig, keySetFor(alg, "signer"), st3, signature.WithEnv(other)); err != nil {
+				panic("Verify under another env: " + err.Error())
+			}
+			lg3 := &payloadLogger{}
+			if _, err := signature.Sign(ctx, kp.sign, st3, signature.WithEnv(envOf(s["penv"], rng)), signature.WithLogger(lg3), signature.WithDebugSigning(true)); err != nil {
+				panic("second Sign of the same object: " + err.Error())
+			}
+			if len(lg3.payloads) != 1 {
+				panic(fmt.Sprintf("driver: expected one logged payload, got %d", len(lg3.payloads)))
+			}
+			signH = append(signH, sha(lg3.payloads[0]))
+		}
 		if r == 0 {
 			st2 := buildStep(s["c"].(map[string]any), rng)
 			vl := &payloadLogger{}
@@ -617,8 +654,12 @@ func runC14(args []string) {
 	samples := []any{}
 	distinct := map[string]bool{}
 	readNDJSON(fl.str("cases", ""), func(n int, c obj) {
-		rng := newRand(int64(n)+int64(fl.int("seed", 1))*7919, "c14")
-		ev := obj{"c": obj{"x": c["x"], "y": c["y"]}, "hx": []string{}, "hy": []string{}, "vx": "", "vy": ""}
+		rot := int64(n) + int64(fl.int("seed", 1))*7919
+		if r, ok := c["rot"].(json.Number); ok {
+			rot, _ = r.Int64()
+		}
+		rng := newRand(rot, "c14")
+		ev := obj{"c": obj{"x": c["x"], "y": c["y"], "rot": rot}, "hx": []string{}, "hy": []string{}, "vx": "", "vy": ""}
 		p, msg := guarded(func() {
 			hx, vx, px := payloadHashes(c["x"].(map[string]any), R, rng)
 			hy, vy, _ := payloadHashes(c["y"].(map[string]any), R, rng)
